@@ -288,6 +288,40 @@ def join_model(I, sep, items):
     return I.lib.concat(I, parts)
 
 
+def format_model(lib, I, template, a, k):
+    """A literal template's .format(...) with plain replacement fields ({}, {0}, {name}: no attribute / index access, no
+    conversion, no format specification): the same concatenation an f-string with those fields is."""
+    import string
+    parts, auto = [], 0
+    try:
+        parsed = list(string.Formatter().parse(template))
+    except ValueError:
+        I.raise_("ValueError")
+    for literal, field, spec, conv in parsed:
+        if literal:
+            parts.append(literal)
+        if field is None:
+            continue
+        if spec or conv:
+            raise Unsupported("str.format field with a conversion or a format specification")
+        if (field == "" and any(f and f.isdigit() for _, f, _, _ in parsed)):
+            raise Unsupported("str.format mixing automatic and manual field numbering")
+        if field == "":
+            field, auto = str(auto), auto + 1
+        if field.isdigit():
+            if int(field) >= len(a):
+                I.raise_("IndexError")
+            v = a[int(field)]
+        elif field.isidentifier():
+            if field not in k:
+                I.raise_("KeyError")
+            v = k[field]
+        else:
+            raise Unsupported("str.format field with attribute or index access")
+        parts.append(lib.to_str(I, v))
+    return lib.concat(I, parts)
+
+
 def str_method(lib, I, s, name, a, k, node):
     if name == "rstrip" and not a:
         return rstrip_model(I, s)
@@ -300,10 +334,14 @@ def str_method(lib, I, s, name, a, k, node):
         return SplitList(I, s, a[0], maxsplit)
     if name == "join" and isinstance(s, str):
         return join_model(I, s, list(lib.iterate(I, a[0])))
-    if name == "encode" and not a:
+    if name == "encode":
+        if k or len(a) > 1 or (a and a[0] not in ("utf-8", "utf8", "UTF-8")):
+            raise Unsupported("str.encode with an encoding other than utf-8 or an errors argument")
         return LibObj("pybytes_sym", term=L.utf8(sterm(I, s)), src=s)
     if name == "lower" and isinstance(s, str):
         return s.lower()
+    if name == "format" and isinstance(s, str):
+        return format_model(lib, I, s, a, k)
     if name in ("startswith", "endswith") and len(a) == 1 and (isinstance(a[0], str) or is_sym(a[0], "str")):
         f = z3.PrefixOf if name == "startswith" else z3.SuffixOf
         return I.mk(f(sterm(I, a[0]), sterm(I, s)), "bool")
